@@ -66,8 +66,10 @@ func createStructDesc(rv reflect.Value) (*structDesc, error) {
 	}
 	sd, err := newStructDescAndPrefetch(rt)
 	if err != nil {
+		rollbackPrefetch()
 		return nil, err
 	}
+	commitPrefetch()
 	sds.Set(abiType, sd)
 	if rv.Kind() == reflect.Ptr {
 		sds.Set(rvTypePtr(rv), sd) // *struct and struct share the same structDesc
@@ -76,6 +78,28 @@ func createStructDesc(rv reflect.Value) (*structDesc, error) {
 }
 
 var prefetchStructDescCache = map[reflect.Type]*structDesc{}
+
+// what the build in progress added, so that a failed build leaves nothing half-built behind.
+// guarded by sdsmu like prefetchStructDescCache.
+var (
+	prefetchAdded  []reflect.Type
+	prefetchLinked []*tType
+)
+
+func commitPrefetch() {
+	prefetchAdded = prefetchAdded[:0]
+	prefetchLinked = prefetchLinked[:0]
+}
+
+func rollbackPrefetch() {
+	for _, t := range prefetchAdded {
+		delete(prefetchStructDescCache, t)
+	}
+	for _, t := range prefetchLinked {
+		t.Sd = nil
+	}
+	commitPrefetch()
+}
 
 func newStructDescAndPrefetch(t reflect.Type) (*structDesc, error) {
 	if sd := prefetchStructDescCache[t]; sd != nil {
@@ -86,6 +110,7 @@ func newStructDescAndPrefetch(t reflect.Type) (*structDesc, error) {
 		return nil, err
 	}
 	prefetchStructDescCache[t] = sd
+	prefetchAdded = append(prefetchAdded, t)
 	if err := prefetchSubStructDesc(sd); err != nil {
 		delete(prefetchStructDescCache, t)
 		return nil, err
@@ -125,6 +150,7 @@ func fetchStructDesc(t *tType) error {
 		return err
 	}
 	t.Sd = sd
+	prefetchLinked = append(prefetchLinked, t)
 	return nil
 }
 
